@@ -10,7 +10,7 @@ class Deadlock(Exception):
 
 
 class Sched(object):
-    def __init__(self, choices, max_steps=20000):
+    def __init__(self, choices, max_steps=400000):
         self.choices = list(choices)
         self.ci = 0
         self.workers = {}
